@@ -358,6 +358,94 @@ func init() {
 			sb.WriteString(strconv.Quote(name))
 		}
 		sb.WriteString("]\n\n")
+		// ---- printer shapes (Truncate.makeString, DateTime.String)
+		unsignedSizes, unsignedDb, printsMaxDb, beforeOnce := true, true, false, true
+		sizeClauses := 0
+		if fd := funcDecl(f, "Truncate", "makeString"); fd == nil {
+			problem("C12: Truncate.makeString not found")
+		} else {
+			mentions := func(n ast.Node, name string) bool {
+				found := false
+				ast.Inspect(n, func(x ast.Node) bool {
+					if se, ok := x.(*ast.SelectorExpr); ok && se.Sel.Name == name {
+						found = true
+					}
+					return true
+				})
+				return found
+			}
+			ast.Inspect(fd.Body, func(n ast.Node) bool {
+				switch x := n.(type) {
+				case *ast.CallExpr:
+					if id, ok := x.Fun.(*ast.Ident); ok && id.Name == "int64" && len(x.Args) == 1 && (mentions(x.Args[0], "MinSize") || mentions(x.Args[0], "MaxSize")) {
+						unsignedSizes = false
+					}
+					if id, ok := x.Fun.(*ast.Ident); ok && id.Name == "int64" && len(x.Args) == 1 && mentions(x.Args[0], "MaxDbSize") {
+						unsignedDb = false
+					}
+					if id, ok := x.Fun.(*ast.Ident); ok && id.Name == "addStringIfNotEmpty" && len(x.Args) > 0 {
+						if bl, ok := x.Args[0].(*ast.BasicLit); ok && strings.Contains(bl.Value, "BEFORE") {
+							beforeOnce = false // addStringIfNotEmpty quotes what DateTime.String() already quoted
+						}
+					}
+				case *ast.IfStmt:
+					if mentions(x.Cond, "MaxDbSize") {
+						printsMaxDb = true
+					}
+					if mentions(x.Cond, "MinSize") || mentions(x.Cond, "MaxSize") {
+						sizeClauses++
+					}
+				}
+				return true
+			})
+			if sizeClauses != 2 {
+				problem("C12: Truncate.makeString no longer has one if-clause each for MinSize and MaxSize")
+			}
+		}
+		layout, usesFormat := "", false
+		if fd := funcDecl(f, "DateTime", "String"); fd == nil {
+			problem("C12: DateTime.String not found")
+		} else {
+			calls := 0
+			ast.Inspect(fd.Body, func(n ast.Node) bool {
+				if ce, ok := n.(*ast.CallExpr); ok {
+					if se, ok := ce.Fun.(*ast.SelectorExpr); ok {
+						switch se.Sel.Name {
+						case "Format":
+							calls++
+							usesFormat = true
+							if len(ce.Args) == 1 {
+								if bl, ok := ce.Args[0].(*ast.BasicLit); ok && bl.Kind == token.STRING {
+									layout, _ = strconv.Unquote(bl.Value)
+								} else if se2, ok := ce.Args[0].(*ast.SelectorExpr); ok {
+									// a named layout of package time: the few a printer would plausibly use
+									switch se2.Sel.Name {
+									case "RFC3339":
+										layout = "2006-01-02T15:04:05Z07:00"
+									case "RFC3339Nano":
+										layout = "2006-01-02T15:04:05.999999999Z07:00"
+									}
+								}
+							}
+						case "String":
+							if _, isCall := se.X.(*ast.CallExpr); isCall { // time.Unix(...).String()
+								calls++
+							}
+						}
+					}
+				}
+				return true
+			})
+			if calls != 1 || (usesFormat && layout == "") {
+				problem("C12: DateTime.String no longer prints through exactly one time.Time.String() / Format(<known layout>) call")
+			}
+		}
+		fmt.Fprintf(&sb, "/-- `Truncate.makeString` prints MINSIZE / MAXSIZE without converting them to `int64` -/\ndef truncateSizesUnsigned : Bool := %s\n", leanBool(unsignedSizes))
+		fmt.Fprintf(&sb, "/-- … and MAXDBSIZE likewise -/\ndef truncateDbSizeUnsigned : Bool := %s\n", leanBool(unsignedDb))
+		fmt.Fprintf(&sb, "/-- `Truncate.makeString` has a clause for `MaxDbSize` -/\ndef truncatePrintsMaxDbSize : Bool := %s\n", leanBool(printsMaxDb))
+		fmt.Fprintf(&sb, "/-- `Truncate.makeString` writes `Before.String()` as it is (already quoted) instead of quoting it again -/\ndef beforeQuotedOnce : Bool := %s\n", leanBool(beforeOnce))
+		fmt.Fprintf(&sb, "/-- `DateTime.String()` prints through `time.Time.Format(layout)` (false: through `time.Time.String()`) -/\ndef dateUsesFormat : Bool := %s\n", leanBool(usesFormat))
+		fmt.Fprintf(&sb, "/-- the layout given to `Format` (empty when `String()` is used): %s -/\ndef dateLayout : List UInt8 := %s\n\n", strings.Replace(layout, "-/", "- /", -1), c12bytesLit(layout))
 		// ---- strconv.IsPrint
 		sb.WriteString("/-- maximal ranges of runes with `strconv.IsPrint` (Go toolchain that builds the harness) -/\ndef isPrintRanges : Array (Nat × Nat) := #[")
 		first := true
